@@ -482,6 +482,8 @@ func replayFile(out *vc.Out, path string) {
 			emitRT(out, pk, sizes, tailErr, "corpus")
 		case "raw":
 			replayRaw(out, toks)
+		case "rtw":
+			replayRTW(out, toks)
 		}
 	}
 }
@@ -504,6 +506,8 @@ func main() {
 		switch *mode {
 		case "rt":
 			genRT(out, r, *tier == "thorough")
+		case "ws":
+			genRTW(out, r, *tier == "thorough")
 		case "raw":
 			genRaw(out, r, *tier == "thorough")
 		}
